@@ -10,14 +10,15 @@ export GOFLAGS=-mod=mod GOPROXY=off
 git -C /repo worktree add -q --detach $wt HEAD || exit 2
 res() { echo "SEED-RESULT $prop $(basename $chg) $1"; }
 cd $wt
+moddir=${MODDIR:-.}
 git apply $chg/patch.diff || { res "patch-does-not-apply"; git -C /repo worktree remove --force $wt; exit 2; }
-if go test -vet=off -count=1 $pkgs > $wt/.t_existing.log 2>&1; then ex=pass; else ex=FAIL; fi
-cp $chg/demo/*.go $dst/ 2>/dev/null
+if (cd $moddir && go test -vet=off -count=1 $pkgs) > $wt/.t_existing.log 2>&1; then ex=pass; else ex=FAIL; fi
+cp $chg/demo/*.go $moddir/$dst/ 2>/dev/null
 runre=$(grep -h "^func Test" $chg/demo/*.go | sed 's/func \(Test[A-Za-z0-9_]*\).*/\1/' | paste -sd'|')
-if go test -vet=off -count=1 -run "^($runre)\$" ./$dst/ > $wt/.t_demo_with.log 2>&1; then dw=pass; else dw=fail; fi
+if (cd $moddir && go test -vet=off -count=1 -run "^($runre)\$" ./$dst/) > $wt/.t_demo_with.log 2>&1; then dw=pass; else dw=fail; fi
 git apply -R $chg/patch.diff
-if go test -vet=off -count=1 -run "^($runre)\$" ./$dst/ > $wt/.t_demo_without.log 2>&1; then dwo=pass; else dwo=fail; fi
-for f in $chg/demo/*.go; do rm -f $dst/$(basename $f); done
+if (cd $moddir && go test -vet=off -count=1 -run "^($runre)\$" ./$dst/) > $wt/.t_demo_without.log 2>&1; then dwo=pass; else dwo=fail; fi
+for f in $chg/demo/*.go; do rm -f $moddir/$dst/$(basename $f); done
 git apply $chg/patch.diff
 cd /verif
 VERIF_REPO=$wt ./verif check $prop > $wt/.check.log 2>&1; rc=$?
